@@ -5,9 +5,10 @@
 // struct/resource values of a small fixed type universe, runs them on an in-memory chain
 // (lib.Host: every transaction decodes storage afresh from the ledger registers) with the
 // interpreter and with the VM, parses the per-operation results the programs log, and
-//   (a) compares them with an independent Go oracle (a plain map with commit/abort), and
-//   (b) writes them as Coq case files evaluated against the code-shaped model of
-//       coq/theories/C22/Model.v (proved to refine the plain-map specification).
+//
+//	(a) compares them with an independent Go oracle (a plain map with commit/abort), and
+//	(b) writes them as Coq case files evaluated against the code-shaped model of
+//	    coq/theories/C22/Model.v (proved to refine the plain-map specification).
 package main
 
 import (
@@ -1093,7 +1094,7 @@ func main() {
 	}
 	nhist := 80
 	if *tier == "thorough" {
-		nhist = 2500
+		nhist = 1500
 		cw.PerFile = 20
 	}
 	sum.Rule = "one case = one history of 4-12 transactions/scripts (each followed by an observation script reading all 12 slots and " +
